@@ -591,6 +591,21 @@ func buildOps(r *vu.RNG, set []string, n int, c *vu.Case) string {
 		k := ks[r.Intn(len(ks))]
 		ops = append(ops, "^"+dash(k[:r.Intn(len(k)+1)]))
 	}
+	if r.Chance(1, 3) && len(ks) > 0 {
+		// several prunes in a row, also of prefixes nothing starts with (a prefix of a key with its last bit flipped walks into
+		// a leaf that does not match): pruning must agree with its definition on the shapes earlier prunes leave behind
+		c.Tag("build-prunes")
+		for j, m := 0, r.Range(2, 4); j < m; j++ {
+			k := ks[r.Intn(len(ks))]
+			p := k[:r.Intn(len(k)+1)]
+			if len(p) > 0 && r.Bool() {
+				b := []byte(p)
+				b[len(b)-1] ^= 1 // '0' <-> '1'
+				p = string(b)
+			}
+			ops = append(ops, "^"+dash(p))
+		}
+	}
 	if len(ops) == 0 {
 		return "[]"
 	}
